@@ -35,6 +35,27 @@ class C13(TalCheck):
             bool(r["raised"]) and r["raise"] is not None)
 
     def oracle(self, case, src, occ, tmpl, plan, hcfg, r, m, cover) -> list:
+        vs = self._judge(occ, r, m, cover)
+        if vs and m.get("guard_relevant"):
+            # Known finding F12: with a tal:omit-tag *expression* on the
+            # element the fallback never carries the element's tags, not
+            # even when the guard had come out false.  Everything that
+            # follows from the dropped tags (an emptied translation block
+            # is not translated, so a failing translation function is
+            # never called ...) is judged against the model variant that
+            # drops them; any deviation from *that* is reported as usual.
+            alt = run_model(tmpl, plan, hcfg, guard_tags=False)
+            vs_alt = self._judge(occ, r, alt, set())
+            if not vs_alt:
+                return [{
+                    "kind": "output",
+                    "sig": "fallback-tags-dropped-with-false-omit-guard",
+                    "detail": f"rendered {r['out']!r} / raised "
+                              f"{r['raise'] and r['raise'][0]}\n expected "
+                              f"{m['out']!r} / {m['raise'] and m['raise'][0]}"}]
+        return vs
+
+    def _judge(self, occ, r, m, cover) -> list:
         vs = []
         if m.get("handled"):
             cover.add("handled")
@@ -63,13 +84,6 @@ class C13(TalCheck):
                                      f"({_args(mr[1])})"})
         elif r["out"] != m["out"]:
             sig = "output"
-            if m.get("guard_relevant"):
-                # known finding: with a tal:omit-tag *expression* on the
-                # element the fallback never carries the element's tags,
-                # not even when the guard had come out false
-                alt = run_model(tmpl, plan, hcfg, guard_tags=False)
-                if alt["out"] == r["out"]:
-                    sig = "fallback-tags-dropped-with-false-omit-guard"
             vs.append({"kind": "output", "sig": sig,
                        "detail": f"rendered {r['out']!r}\n expected "
                                  f"{m['out']!r}"})
